@@ -1117,6 +1117,9 @@ def call_builtin_method(it, self_, k, name, args, kwargs):
         n = it.resolve(args[0]).concrete()
         self_.fields[n] = args[1]
         return NONE
+    if name == "__new__":
+        c = it.resolve(args[0])
+        return SObj(c.obj, {})
     if name == "__init__":
         if isinstance(self_, SObj) and issubclass(self_.cls, BaseException):
             self_.fields["args"] = STuple(list(args))
@@ -1552,6 +1555,43 @@ def f_hash(it, x):
 @function(print)
 def f_print(it, *a, **k):
     return NONE
+
+
+import dataclasses as _dc
+
+
+@function(_dc.is_dataclass)
+def f_is_dataclass(it, x):
+    x = it.resolve(x)
+    if isinstance(x, SObj):
+        return SBool(_dc.is_dataclass(x.cls))
+    if isinstance(x, SConst):
+        return SBool(_dc.is_dataclass(x.obj))
+    return SBool(False)
+
+
+@function(_dc.fields)
+def f_dc_fields(it, x):
+    x = it.resolve(x)
+    cls = x.cls if isinstance(x, SObj) else x.obj
+    return SList([SConst(f) for f in _dc.fields(cls)])
+
+
+import time as _time
+
+
+@function(_time.time)
+def f_time(it):
+    t = it.fresh("float", "now")
+    it.ex.assume(t.t > 0)
+    return t
+
+
+@function(_time.monotonic)
+def f_monotonic(it):
+    t = it.fresh("float", "mono")
+    it.ex.assume(t.t > 0)
+    return t
 
 
 @function(struct.unpack)
